@@ -143,6 +143,7 @@ func VfC09_AcceptDecimal() {
 // value at width w.
 //
 //vf:unwind 400
+//vf:shards 8
 func VfC09_AcceptHex() {
 	w := hWidth()
 	typ := types.NewInt(w)
@@ -150,11 +151,15 @@ func VfC09_AcceptHex() {
 	var n int
 	if signed {
 		n = int((w + 3) / 4)
-		if n > 8 {
-			vfCut("s0x literals longer than 8 digits are outside the quick bound")
+		if n > 16 {
+			if vfTier() == 0 {
+				vfCut("s0x literals longer than 16 digits are outside the quick bound")
+			}
 		}
 	} else {
-		n = vfLen("n", 1, 5)
+		// lengths around the 64-bit boundary are where fast paths break
+		lens := [...]int{1, 2, 3, 4, 5, 8, 15, 16, 17}
+		n = lens[vfChoice("n", len(lens))]
 	}
 	digs := vfString("d", n)
 	want := new(big.Int)
